@@ -7,6 +7,7 @@ package harness
 import (
 	"encoding/json"
 	"fmt"
+	"log"
 	"os"
 	"os/exec"
 	"runtime"
@@ -104,6 +105,7 @@ type RunResult struct {
 }
 
 func init() {
+	log.SetOutput(discard{})
 	logrus.SetOutput(discard{})
 	logrus.SetLevel(logrus.PanicLevel)
 }
@@ -409,8 +411,9 @@ func Minimise(t *testing.T, rf *ReplayFile, maxReruns int) *ReplayFile {
 	}
 	best := cloneTape(rf.Tape)
 	reruns := 0
+	started := time.Now()
 	try := func(tp map[string][]int) bool {
-		if reruns >= maxReruns {
+		if reruns >= maxReruns || time.Since(started) > MinimiseBudget {
 			return false
 		}
 		reruns++
@@ -603,6 +606,9 @@ func runIsolated(index int, seed uint64) RunResult {
 	r.Tape = nil
 	return r
 }
+
+// MinimiseBudget bounds the wall-clock time of one minimisation.
+var MinimiseBudget = 40 * time.Second
 
 // IsolateReplays makes the minimiser run every candidate tape in a child
 // process (same reason as isolateArgs).
